@@ -2,9 +2,9 @@
    ExtrOcamlBasic only: bool, option, unit, list, prod, sumbool map to OCaml's own;
    nat, N, Z, positive, byte stay extracted inductive datatypes. *)
 From Coq Require Import Extraction ExtrOcamlBasic.
-From Verif Require Import Base.Bytes Base.Utf8 Bytes.FileModel Lex.Lexer Bytes.Split Bytes.Quote.
+From Verif Require Import Base.Bytes Base.Utf8 Bytes.FileModel Lex.Lexer Lex.Reference Bytes.Split Bytes.Quote.
 From Verif Require Import Tree.Tree Tree.PosLang Tree.Walk Tree.PosProofs Tree.Checkers Gen.Schema Gen.PosSpec Gen.PosImpl Gen.WalkImpl Tree.Printer Gen.PrintProg Gen.Globals Skel.Skeleton Gen.SkeletonData Parse.ExprModel Parse.Span Parse.SpanProofs.
-Extraction "models.ml" FileModel.position_of FileModel.resolve_pos FileModel.error_string
+Extraction "models.ml" Reference.ref_lex FileModel.position_of FileModel.resolve_pos FileModel.error_string
   Split.split Quote.quote_string Quote.quote_bytes Quote.quote_ident Lexer.next_token Lexer.init_lexer Lexer.lex_all Lexer.lex_all_np Utf8.decode_rune Utf8.encode_rune Utf8.is_space_rune
   Tree.wt PosLang.pe_impl PosLang.pe_spec Walk.walk Walk.walk_many Walk.to_rose Walk.inspect Walk.preorder
   Schema.schema Schema.ifaces PosSpec.pos_spec PosImpl.pos_impl WalkImpl.walk_impl Printer.sql Printer.info Printer.hand_modelled PrintProg.sql_prog PrintProg.prec_table PrintProg.string_consts
